@@ -88,7 +88,9 @@ namespace Obj
 theorem derivSplineG_curve {o o' : Obj K} {b nb : Basis K} {tol : K} {Ok : K → Prop}
     (hb : o.bases = #[b]) (hv : b.Valid) {nc : ℕ} (hs : o.cps.shape = [b.numFunctions, nc])
     (hr : o.rational = false) (htol : 0 < tol) (hdir : DSplineDir b nb tol Ok)
-    (hO : IsDerivObj o o' 0 b nb) {us : List K} (hus : ∀ u ∈ us, Ok u) (tensor : Bool) :
+    (hO : IsDerivObj o o' 0 b nb) {us : List K} (hus : ∀ u ∈ us, Ok u) (tensor : Bool)
+    (hneA1 : nb.periodic < 0 → us ≠ [] := by (first | assumption | (simp; done) | skip))
+    (hneA2 : b.periodic < 0 → us ≠ [] := by (first | assumption | (simp; done) | skip)) :
     ∃ rv rd, o'.evaluate tol [us] tensor = .ok rv ∧
       o.derivativeGeneric tol [us] [1] [true] tensor = .ok rd ∧
       ∀ i c, i < us.length → c < nc → rv.get (i * nc + c) = rd.get (i * nc + c) := by
@@ -156,7 +158,10 @@ theorem derivSplineG_surface_u {o o' : Obj K} {b1 b2 nb : Basis K} {tol : K} {Ok
     (hb : o.bases = #[b1, b2]) (hv1 : b1.Valid) (hv2 : b2.Valid) {nc : ℕ}
     (hs : o.cps.shape = [b1.numFunctions, b2.numFunctions, nc]) (hr : o.rational = false)
     (htol : 0 < tol) (hdir : DSplineDir b1 nb tol Ok) (hO : IsDerivObj o o' 0 b1 nb)
-    {us vs : List K} (hus : ∀ u ∈ us, Ok u) (hvs : ∀ v ∈ vs, b2.Admissible tol v) :
+    {us vs : List K} (hus : ∀ u ∈ us, Ok u) (hvs : ∀ v ∈ vs, b2.Admissible tol v)
+    (hneA1 : b1.periodic < 0 → us ≠ [] := by (first | assumption | (simp; done) | skip))
+    (hneA2 : b2.periodic < 0 → vs ≠ [] := by (first | assumption | (simp; done) | skip))
+    (hneA3 : nb.periodic < 0 → us ≠ [] := by (first | assumption | (simp; done) | skip)) :
     (∃ rv rd, o'.evaluate tol [us, vs] true = .ok rv ∧
       o.derivativeGeneric tol [us, vs] [1, 0] [true, true] true = .ok rd ∧
       ∀ i1 i2 c, i1 < us.length → i2 < vs.length → c < nc →
@@ -241,7 +246,10 @@ theorem derivSplineG_surface_v {o o' : Obj K} {b1 b2 nb : Basis K} {tol : K} {Ok
     (hb : o.bases = #[b1, b2]) (hv1 : b1.Valid) (hv2 : b2.Valid) {nc : ℕ}
     (hs : o.cps.shape = [b1.numFunctions, b2.numFunctions, nc]) (hr : o.rational = false)
     (htol : 0 < tol) (hdir : DSplineDir b2 nb tol Ok) (hO : IsDerivObj o o' 1 b2 nb)
-    {us vs : List K} (hus : ∀ u ∈ us, b1.Admissible tol u) (hvs : ∀ v ∈ vs, Ok v) :
+    {us vs : List K} (hus : ∀ u ∈ us, b1.Admissible tol u) (hvs : ∀ v ∈ vs, Ok v)
+    (hneA1 : b1.periodic < 0 → us ≠ [] := by (first | assumption | (simp; done) | skip))
+    (hneA2 : b2.periodic < 0 → vs ≠ [] := by (first | assumption | (simp; done) | skip))
+    (hneA3 : nb.periodic < 0 → vs ≠ [] := by (first | assumption | (simp; done) | skip)) :
     (∃ rv rd, o'.evaluate tol [us, vs] true = .ok rv ∧
       o.derivativeGeneric tol [us, vs] [0, 1] [true, true] true = .ok rd ∧
       ∀ i1 i2 c, i1 < us.length → i2 < vs.length → c < nc →
@@ -337,7 +345,11 @@ theorem derivSplineG_volume_u {o o' : Obj K} {b1 b2 b3 nb : Basis K} {tol : K} {
     (hr : o.rational = false) (htol : 0 < tol) (hdir : DSplineDir b1 nb tol Ok)
     (hO : IsDerivObj o o' 0 b1 nb) {us vs ws : List K}
     (hus : ∀ u ∈ us, Ok u) (hvs : ∀ v ∈ vs, b2.Admissible tol v)
-    (hws : ∀ w ∈ ws, b3.Admissible tol w) :
+    (hws : ∀ w ∈ ws, b3.Admissible tol w)
+    (hneA1 : b1.periodic < 0 → us ≠ [] := by (first | assumption | (simp; done) | skip))
+    (hneA2 : b2.periodic < 0 → vs ≠ [] := by (first | assumption | (simp; done) | skip))
+    (hneA3 : b3.periodic < 0 → ws ≠ [] := by (first | assumption | (simp; done) | skip))
+    (hneA4 : nb.periodic < 0 → us ≠ [] := by (first | assumption | (simp; done) | skip)) :
     (∃ rv rd, o'.evaluate tol [us, vs, ws] true = .ok rv ∧
       o.derivativeGeneric tol [us, vs, ws] [1, 0, 0] [true, true, true] true = .ok rd ∧
       ∀ i1 i2 i3 c, i1 < us.length → i2 < vs.length → i3 < ws.length → c < nc →
@@ -445,7 +457,11 @@ theorem derivSplineG_volume_v {o o' : Obj K} {b1 b2 b3 nb : Basis K} {tol : K} {
     (hr : o.rational = false) (htol : 0 < tol) (hdir : DSplineDir b2 nb tol Ok)
     (hO : IsDerivObj o o' 1 b2 nb) {us vs ws : List K}
     (hus : ∀ u ∈ us, b1.Admissible tol u) (hvs : ∀ v ∈ vs, Ok v)
-    (hws : ∀ w ∈ ws, b3.Admissible tol w) :
+    (hws : ∀ w ∈ ws, b3.Admissible tol w)
+    (hneA1 : b1.periodic < 0 → us ≠ [] := by (first | assumption | (simp; done) | skip))
+    (hneA2 : b2.periodic < 0 → vs ≠ [] := by (first | assumption | (simp; done) | skip))
+    (hneA3 : b3.periodic < 0 → ws ≠ [] := by (first | assumption | (simp; done) | skip))
+    (hneA4 : nb.periodic < 0 → vs ≠ [] := by (first | assumption | (simp; done) | skip)) :
     (∃ rv rd, o'.evaluate tol [us, vs, ws] true = .ok rv ∧
       o.derivativeGeneric tol [us, vs, ws] [0, 1, 0] [true, true, true] true = .ok rd ∧
       ∀ i1 i2 i3 c, i1 < us.length → i2 < vs.length → i3 < ws.length → c < nc →
@@ -548,7 +564,11 @@ theorem derivSplineG_volume_w {o o' : Obj K} {b1 b2 b3 nb : Basis K} {tol : K} {
     (hr : o.rational = false) (htol : 0 < tol) (hdir : DSplineDir b3 nb tol Ok)
     (hO : IsDerivObj o o' 2 b3 nb) {us vs ws : List K}
     (hus : ∀ u ∈ us, b1.Admissible tol u) (hvs : ∀ v ∈ vs, b2.Admissible tol v)
-    (hws : ∀ w ∈ ws, Ok w) :
+    (hws : ∀ w ∈ ws, Ok w)
+    (hneA1 : b1.periodic < 0 → us ≠ [] := by (first | assumption | (simp; done) | skip))
+    (hneA2 : b2.periodic < 0 → vs ≠ [] := by (first | assumption | (simp; done) | skip))
+    (hneA3 : b3.periodic < 0 → ws ≠ [] := by (first | assumption | (simp; done) | skip))
+    (hneA4 : nb.periodic < 0 → ws ≠ [] := by (first | assumption | (simp; done) | skip)) :
     (∃ rv rd, o'.evaluate tol [us, vs, ws] true = .ok rv ∧
       o.derivativeGeneric tol [us, vs, ws] [0, 0, 1] [true, true, true] true = .ok rd ∧
       ∀ i1 i2 i3 c, i1 < us.length → i2 < vs.length → i3 < ws.length → c < nc →
